@@ -80,7 +80,13 @@ func synthRoutes(r *rng, idx int, withVarForm bool) (*modSpec, []routeIntent) {
 		{"Params", mod + ".Params"}, {"Result", mod + ".Result"}, {"[]Result", "[]" + mod + ".Result"}, {"IdItem", mod + ".IdItem"}, {"uint32", "uint32"},
 	}
 	var b strings.Builder
-	fmt.Fprintf(&b, "package main\n\nimport (\n\t\"fmt\"\n\n\t\"%s/echo\"\n\t\"%s/inner\"\n)\n\nvar _ = fmt.Sprint\n\n", mod, mod)
+	// one module in three names the registering package like the imported package of handlers (resolution of a
+	// handler's package must go by import path, not by package name)
+	rootPkg := "main"
+	if idx%3 == 1 {
+		rootPkg = "inner"
+	}
+	fmt.Fprintf(&b, "package %s\n\nimport (\n\t\"fmt\"\n\n\t\"%s/echo\"\n\t\"%s/inner\"\n)\n\nvar _ = fmt.Sprint\n\n", rootPkg, mod, mod)
 	b.WriteString("const pkgRoute = \"/pkg_const/\"\n\ntype IdItem int64\n\ntype Params struct {\n\tA int\n\tB string\n}\n\ntype Result struct {\n\tOK bool\n\tItems []IdItem\n}\n\ntype controller struct{}\n\ntype admin struct{}\n\n")
 	b.WriteString("type Flag bool\n\ntype Token string\n\nfunc QueryParamBool[T ~bool](echo.Context, string) T { var z T; return z }\nfunc QueryParam[T ~string](echo.Context, string) T { return \"\" }\nfunc QueryParamInt[T ~int64](echo.Context, string) (T, error) { return 0, nil }\nfunc (controller) QueryParamInt64(echo.Context, string) int64 { return 0 }\nfunc (controller) QueryParamBool(echo.Context, string) bool { return false }\nfunc FormValueJSON(echo.Context, string, any) error { return nil }\n\n")
 	var intents []routeIntent
